@@ -542,6 +542,9 @@ func (f *fnCtx) classifyErrOrigin(name string, pos token.Pos, a *Arg) bool {
 	return true
 }
 
+// how bad a class is when several values are combined into one text
+var classRank = map[string]int{"Const": 0, "Digest": 1, "InternalErr": 2, "Sanitised": 3, "Placeholder": 4, "RawErr": 5, "ClientAddr": 6}
+
 // placeholderFunc: functions of the walked packages that return the client address only under `if logClientIP`
 var placeholderFuncs = map[string]bool{}
 
@@ -588,6 +591,62 @@ func (f *fnCtx) classify0(e ast.Expr, pos token.Pos, depth int) Arg {
 	if _, ok := e.(*ast.BasicLit); ok {
 		a.Class, a.Why = "Const", "literal"
 		return a
+	}
+	if p, ok := e.(*ast.ParenExpr); ok {
+		return f.classify0(p.X, pos, depth)
+	}
+	// the text of an error is the error: X.Error()
+	if c, ok := e.(*ast.CallExpr); ok && len(c.Args) == 0 {
+		if sel, ok := c.Fun.(*ast.SelectorExpr); ok && sel.Sel.Name == "Error" {
+			if k, _ := f.kindOf(sel.X); k == "error" || (k == "" && errName.MatchString(src(sel.X))) {
+				in := f.classify(sel.X, pos, depth)
+				in.Text, in.Why = t, "text of an error: "+in.Why
+				return in
+			}
+		}
+		// the name of a socket's duplicated file is "<net>:<local>-><remote>"
+		if sel, ok := c.Fun.(*ast.SelectorExpr); ok && sel.Sel.Name == "Name" {
+			if _, ts := f.kindOf(sel.X); ts == "*os.File" {
+				if id, ok := sel.X.(*ast.Ident); ok {
+					if rhs, _ := f.lastAssign(id.Name, pos); rhs != nil {
+						if p, _ := f.producerOfCall(rhs, 0); strings.HasSuffix(p, ":file") {
+							a.Class, a.Why = "ClientAddr", "name of the file duplicated from a connection: \"<net>:<local>-><remote>\""
+							return a
+						}
+					}
+				}
+			}
+		}
+	}
+	// formatted / concatenated text carries what its operands carry
+	if c, ok := e.(*ast.CallExpr); ok && depth < 4 {
+		cp, cn := f.calleePkg(c), calleeName(c)
+		if (cp == "fmt" && (cn == "Sprintf" || cn == "Sprint" || cn == "Sprintln" || cn == "Errorf")) || (cp == "errors" && cn == "Join") ||
+			(f.info == nil && (cn == "Sprintf" || cn == "Errorf")) {
+			worst := Arg{Class: "Const", Text: t, Type: ts, Why: "formatted text of constants"}
+			for _, x := range c.Args {
+				in := f.classify(x, pos, depth+1)
+				if classRank[in.Class] > classRank[worst.Class] {
+					worst = in
+					worst.Text, worst.Why = t, "formatted from "+in.Text+": "+in.Why
+				}
+			}
+			return worst
+		}
+		if id, ok := c.Fun.(*ast.Ident); ok && id.Name == "recover" && len(c.Args) == 0 {
+			a.Class, a.Why = "RawErr", "a recovered panic value (may be any error)"
+			return a
+		}
+	}
+	if b, ok := e.(*ast.BinaryExpr); ok && b.Op == token.ADD && depth < 4 {
+		if k, _ := f.kindOf(e); k == "string" || k == "const" || k == "" {
+			l, r := f.classify(b.X, pos, depth+1), f.classify(b.Y, pos, depth+1)
+			if classRank[r.Class] > classRank[l.Class] {
+				l = r
+			}
+			l.Text, l.Why = t, "concatenation: "+l.Why
+			return l
+		}
 	}
 	if x, ok := e.(*ast.Ident); ok {
 		if x.Name == "originalSrc" || x.Name == "flowDescription" {
@@ -825,6 +884,20 @@ func walkFile(rel string, f *ast.File, info *types.Info, out *Out, decls map[str
 						continue
 					}
 				}
+				if i == 0 && s.Format == "" {
+					// "message " + value: the leftmost literal names the site
+					x := a
+					for {
+						b, ok := x.(*ast.BinaryExpr)
+						if !ok {
+							break
+						}
+						x = b.X
+					}
+					if bl, ok := x.(*ast.BasicLit); ok && bl.Kind == token.STRING && x != a {
+						s.Format = bl.Value
+					}
+				}
 				arg := ctx.classify(a, c.Pos(), 0)
 				k := len(s.Args)
 				if isF && s.Format != "" && k < len(vb) && vb[k] == 'T' {
@@ -832,6 +905,86 @@ func walkFile(rel string, f *ast.File, info *types.Info, out *Out, decls map[str
 				}
 				s.Args = append(s.Args, arg)
 			}
+			out.Sites = append(out.Sites, s)
+			return true
+		})
+		// error texts that leave through something other than a logging call: X.Error() stored in a record field or
+		// handed to a method (tunnel statistics: setConnErr, CovertDialErr); and panic(x), whose value the runtime prints
+		var logRanges [][2]token.Pos
+		ast.Inspect(fd.Body, func(n ast.Node) bool {
+			if c, ok := n.(*ast.CallExpr); ok {
+				if _, _, _, isLog := ctx.logCall(c); isLog {
+					logRanges = append(logRanges, [2]token.Pos{c.Pos(), c.End()})
+				}
+			}
+			return true
+		})
+		inLog := func(p token.Pos) bool {
+			for _, r := range logRanges {
+				if p >= r[0] && p < r[1] {
+					return true
+				}
+			}
+			return false
+		}
+		var stack []ast.Node
+		ast.Inspect(fd.Body, func(n ast.Node) bool {
+			if n == nil {
+				stack = stack[:len(stack)-1]
+				return true
+			}
+			stack = append(stack, n)
+			c, ok := n.(*ast.CallExpr)
+			if !ok {
+				return true
+			}
+			if id, ok := c.Fun.(*ast.Ident); ok && id.Name == "panic" && len(c.Args) == 1 && !inLog(c.Pos()) {
+				isBuiltin := info == nil
+				if info != nil {
+					_, isBuiltin = info.Uses[id].(*types.Builtin)
+				}
+				if isBuiltin {
+					s := Site{File: rel, Line: fset.Position(c.Pos()).Line, Func: fd.Name.Name, Recv: "runtime", Method: "panic", Level: "Print", Format: "\"panic:\""}
+					s.Args = append(s.Args, ctx.classify(c.Args[0], c.Pos(), 0))
+					out.Sites = append(out.Sites, s)
+				}
+				return true
+			}
+			sel, ok := c.Fun.(*ast.SelectorExpr)
+			if !ok || sel.Sel.Name != "Error" || len(c.Args) != 0 || inLog(c.Pos()) {
+				return true
+			}
+			if k, _ := ctx.kindOf(sel.X); !(k == "error" || (k == "" && errName.MatchString(src(sel.X)))) {
+				return true
+			}
+			// where does the text go?
+			dest := "expression"
+			for i := len(stack) - 2; i >= 0; i-- {
+				switch p := stack[i].(type) {
+				case *ast.CallExpr:
+					dest = src(p.Fun) + "(...)"
+				case *ast.AssignStmt:
+					if len(p.Lhs) > 0 {
+						dest = src(p.Lhs[0]) + " ="
+					}
+				case *ast.KeyValueExpr:
+					dest = src(p.Key) + ":"
+				case *ast.ReturnStmt:
+					dest = "return"
+				default:
+					continue
+				}
+				break
+			}
+			if dest == "return" || strings.HasPrefix(dest, "errors.New") || strings.HasPrefix(dest, "strings.") {
+				// flows on as a value of the caller; comparisons of texts print nothing
+				return true
+			}
+			s := Site{File: rel, Line: fset.Position(c.Pos()).Line, Func: fd.Name.Name, Recv: "record", Method: "errtext", Level: "Print",
+				Format: "\"" + strings.ReplaceAll(dest, "\"", "'") + "\""}
+			a := ctx.classify(sel.X, c.Pos(), 0)
+			a.Text = src(c)
+			s.Args = append(s.Args, a)
 			out.Sites = append(out.Sites, s)
 			return true
 		})
